@@ -38,6 +38,8 @@ impl InlineParser {
     // returns `true` if any rule reported success
     //
     pub fn skip_token(&self, state: &mut InlineState) {
+        #[cfg(mdit_verif)]
+        let _verif_frame = crate::verif_hooks::Frame::enter(state.level);
         let pos = state.pos;
         let mut ok = None;
 
@@ -80,6 +82,8 @@ impl InlineParser {
     // Generate tokens for input range
     //
     pub fn tokenize(&self, state: &mut InlineState) {
+        #[cfg(mdit_verif)]
+        let _verif_frame = crate::verif_hooks::Frame::enter(state.level);
         let end = state.pos_max;
 
         while state.pos < end {
@@ -92,8 +96,33 @@ impl InlineParser {
             let mut ok = None;
 
             if state.level < state.md.max_nesting {
+                #[cfg(mdit_verif)]
+                let mut verif_rule_idx = 0usize;
                 for rule in self.ruler.iter() {
+                    #[cfg(mdit_verif)]
+                    let verif_probe = if crate::verif_hooks::probe_enabled() {
+                        let size = crate::verif_hooks::tree_size(&state.node);
+                        let saved = (state.pos, state.pos_max, state.link_level, state.level);
+                        let verdict = rule(state, true);
+                        let kept = (state.pos, state.pos_max, state.link_level, state.level) == saved;
+                        state.pos = saved.0;
+                        state.pos_max = saved.1;
+                        Some((verdict, crate::verif_hooks::tree_size(&state.node) == size, kept, saved.0))
+                    } else { None };
                     ok = rule(state, false);
+                    #[cfg(mdit_verif)]
+                    {
+                        if let Some((silent, kept_tree, kept_pos, at)) = verif_probe {
+                            // a real-mode rule may leave `pos` inside its construct (links do): the extent is
+                            // what the tokenizer will advance to, measured from the probe position
+                            let real = ok.map(|len| state.pos + len - at);
+                            crate::verif_hooks::record(crate::verif_hooks::ProbeRecord {
+                                inline: true, rule_idx: verif_rule_idx, at, silent, real,
+                                silent_kept_tree: kept_tree, silent_kept_pos: kept_pos,
+                            });
+                        }
+                        verif_rule_idx += 1;
+                    }
                     if ok.is_some() {
                         break;
                     }
